@@ -59,7 +59,7 @@ def run(tier, seed):
         "a raw val.Sum(tag, typ, vals) is a plain dataclass: inhabitation is the caller's obligation (the helpers establish it); UnitSum(tag, size) needs 0 <= tag < size",
         "every solver verdict cross-checked by a second solver",
     ]
-    res.assumptions = ["Function-valued constants (val.Function.type_ = inner signature of the body's root) and DfBase.load are covered by the bounded run only"]
+    res.assumptions = ["DfBase.load: DfBase.add and Hugr.add_link are trusted call recorders (ghost traces; add_op is proved in C01, add_link in C04); in the proof of load for a bare value DefinitionBuilder.add_const is a recorder whose non-ghost clauses are proved for its real body (contracts/add_const.py)"]
     # "the type it reports is the type its serialized form inhabits": the encoders of sum / extension values and
     # of Const write exactly the reported type, tag and fields (per-class encode/decode lemmas shared with C05)
     codec_files = [os.path.join(VERIF, "contracts", f) for f in ("node_port.py", "tys.py", "codec.py", "ops.py")]
@@ -67,7 +67,9 @@ def run(tier, seed):
     standard_flow(res, FILES, targets(), None, bounded_modules=[("bounded.c14", 900, 1800)], more=[(codec_files, codec_lemmas),
                         # a function-valued constant has the signature of its body; the LoadConstant built for a constant node has the reported type
                         ([os.path.join(VERIF, "contracts", f) for f in ("node_port.py", "tys.py", "ops.py", "utils.py", "base.py", "val_function.py")], ["hugr.val.Function.type_"]),
-                        ([os.path.join(VERIF, "contracts", f) for f in ("node_port.py", "tys.py", "ops.py", "utils.py", "base.py", "load.py")], ["hugr.build.dfg.DfBase.load#node"])])
+                        ([os.path.join(VERIF, "contracts", f) for f in ("node_port.py", "tys.py", "ops.py", "utils.py", "base.py", "load.py")], ["hugr.build.dfg.DfBase.load#node", "hugr.build.dfg.DfBase.load#value"]),
+                        # the constant definition DfBase.load adds for a bare value: one new node holding Const(value) under the requested parent
+                        ([os.path.join(VERIF, "contracts", f) for f in ("node_port.py", "tys.py", "ops.py", "utils.py", "base.py", "add_const.py")], ["hugr.build.dfg.DefinitionBuilder.add_const"])])
     for g in ground():
         res.ground.append(g)
         if not g["ok"]:
@@ -80,5 +82,5 @@ def run(tier, seed):
     res.explanation = ("Proved: val.Sum.type_, every helper constructor (Tuple/Some/None_/Left/Right/UnitSum/bool_value) builds the stated sum type with the right tag and is well typed "
                        "(field types exactly the tagged variant row), Extension.type_, IntVal/FloatVal/StringVal/ArrayVal/ListVal/StaticArrayVal report the matching standard type, name their "
                        "defining extension and embed elements as complete values with the element type; Const/LoadConst agreement (shared with C06). "
-                       "val.Function.type_ (signature of the body's root operation) and DfBase.load for a constant node (the LoadConstant carries the reported type and is linked to the constant's static port; plain builder calls as trusted recorders) are proved as well; DfBase.load of a bare value (which first adds the constant node), the encoders of nested function values and the whole value expressions are covered by the bounded run, hence category other.")
+                       "val.Function.type_ (signature of the body's root operation) and DfBase.load for a constant node (the LoadConstant carries the reported type and is linked to the constant's static port; plain builder calls as trusted recorders) are proved as well; DfBase.load of a bare value (one constant node holding exactly that value is added by add_const - proved against the C04 contract of Hugr.add_node - under the requested parent, else under the container; then as for a node); the encoders of nested function values and the whole value expressions are covered by the bounded run, hence category other.")
     return res.finish()
